@@ -205,8 +205,8 @@ def offset_allowed(t, text, form):
     word; never after a year (ctime)."""
     if not t["has_time"] or t["precision"] == "h":
         return False
-    if t["name"].startswith("ctime"):
-        return False
+    if t["name"].startswith("ctime") or t["name"] == "time_first_iso":
+        return False        # the text ends in a year / a date, not a time
     if text[-1].isdigit():
         return True
     return form.startswith(" ")
